@@ -18,6 +18,11 @@
                                                    generated code (the double escape is in the code, so it
                                                    is in the model); the decoded value is Esc(s), recorded
                                                    as observation "double-escape"
+   The contexts classify a sink by the tokenizer state it is consumed in, not by the syntactic FORM of the
+   expression: whether { e } is a variable, a call, a concatenation, a constant, a string literal or a raw
+   string literal, templ must run the value through Esc before it reaches the context.  The binding therefore
+   exercises every form the generator can distinguish in text and in attribute values (gallery.templ for the
+   forms that take an input; checks/C01.py generates one component per (literal-valued form, value) at check time).
    Actions:  Feed(c)  one input symbol: Esc(c) is run through PreStep/Step;  Close: the static suffix.
    Invariants (C01):
      InContext         while dynamic output is consumed the tokenizer never leaves the context's family
